@@ -22,15 +22,17 @@ SEED=${VERIF_SEED:-1}
 OUT="$VERIF/out/$ID"
 BIN="$VERIF/out/bin"
 mkdir -p "$OUT" "$BIN" "$VERIF/evidence"
-rm -rf "$OUT/parts" "$OUT"/child-*.log
+rm -rf "$OUT/parts" "$OUT"/child-*.log; [ -z "$REPLAY" ] && rm -rf "$OUT/replay"
 mkdir -p "$OUT/parts" "$OUT/replay"
 
 # per-property execution profile: binary flavour, children quick/thorough, watchdog seconds quick/thorough
-RACE=race; CQ=4; CT=16; WQ=900; WT=10800
+# The virtual-time (synctest) checks decide with oracles, not with the race detector, and the
+# race runtime has shown rare internal crashes under heavy synctest load: they use the plain
+# binary. C17 and C20 drive real goroutines and are decided (partly) by the race detector.
+RACE=norace; CQ=8; CT=16; WQ=900; WT=10800
 case "$ID" in
-  C10) RACE=norace; CQ=4 ;;
-  C06) RACE=norace ;;
-  C16) RACE=norace ;;
+  C17|C20) RACE=race; CQ=4 ;;
+  C10) CQ=4 ;;
 esac
 if [ -n "${VERIF_CHILDREN_OVERRIDE:-}" ]; then CQ=$VERIF_CHILDREN_OVERRIDE; CT=$VERIF_CHILDREN_OVERRIDE; fi
 
@@ -77,6 +79,22 @@ for k in $(seq 0 $((N-1))); do
   pids+=($!)
 done
 for p in "${pids[@]}"; do wait "$p"; done
+# A child that died of a Go-runtime / ThreadSanitizer internal failure (not a Go panic of the code
+# under test) is an infrastructure failure: re-run that child, at most twice.
+for attempt in 1 2; do
+  redo=()
+  for k in $(seq 0 $((N-1))); do
+    if ! grep -q '"done": true' "$OUT/parts/$ID-$k.json" 2>/dev/null; then
+      if grep -qE '^ThreadSanitizer: CHECK failed|^SIGSEGV: segmentation violation|^fatal error: unexpected signal|^fatal error: (runtime|malloc|found bad pointer)' "$OUT/child-$k.log" 2>/dev/null; then redo+=($k); fi
+    fi
+  done
+  [ ${#redo[@]} -eq 0 ] && break
+  for k in "${redo[@]}"; do
+    cp "$OUT/child-$k.log" "$OUT/child-$k.infra-crash.$attempt.log"
+    ( cd "$OUT" && VERIF_CHILD=$k timeout -s QUIT -k 20 "$W" "$TEST" -test.run "^Test${ID}\$" -test.timeout 0 -test.v > "$OUT/child-$k.log" 2>&1; echo $? > "$OUT/parts/$ID-$k.exit" ) &
+  done
+  wait
+done
 T1=$(date +%s.%N)
 
 python3 "$VERIF/agg.py" "$ID" "$TIER" "$SEED" "$OUT" "$N" "$(echo "$T1 - $T0" | bc)" "$VERIF"
